@@ -54,12 +54,15 @@ def gen_case(rng: random.Random):
                 s.update(op=wrong)
                 s["assert"] = False
             elif op == "dict":
-                s.update(op=rng.choice(["deq", "deq", "dle", "dge"]), k=rng.choice([1, 2, 3]))
+                s.update(op=rng.choice(["deq", "deq", "dle", "dge", "dget"]), k=rng.choice([1, 2, 3]))
+                if s["op"] == "dget":
+                    s.update(x=0)
+                    s["assert"] = False
             else:
                 s.update(op=op)
             s.pop("assert_", None)
             if s["op"] not in ("raise", "none") and not s["op"].endswith(("bot", "bad")) and \
-                    (s["op"] == op or (op == "dict" and s["op"] in ("deq", "dle", "dge"))):
+                    (s["op"] == op or (op == "dict" and s["op"] in ("deq", "dle", "dge", "dget"))):
                 used.add(i)
             test.append(s)
         prog.append(test)
@@ -82,7 +85,7 @@ def run_case(args):
     for t, j, res in obs["log"]:
         s = prog[t - 1][j - 1]
         res = {"ValueError": "EX", "UsageError": "UE"}.get(res, res)
-        if s["op"] in ("none", "chg") and res == "T":
+        if s["op"] in ("none", "chg", "dget") and res == "T":
             res = "-"
         events.append({"t": t, "site": s["site"], "op": s["op"], "k": s["k"], "x": s["x"], "assert": s["assert"], "res": res})
     failed = [bool(tr["exc"] or tr["missing"] or tr["incorrect"]) for tr in obs["tests"]]
@@ -108,12 +111,17 @@ def run_case(args):
     return {"case": case, "text": text, "new": obs["files"]["test_case.py"], "trace": trace, "problem": None}
 
 
-def validate(chk, n, props_map=None):
-    """generate n cases, execute them, validate the traces with TLC; mismatches go to chk"""
+def validate(chk, n, flags="any", cases=None):
+    """generate n cases, execute them, validate the traces with TLC; mismatches go to chk
+    flags: "any" = a random approved set per case, "none" = nothing approved (C06)"""
     from . import pool, tlc
     from .checklib import MachineryError
     rng = random.Random(chk.seed * 7919 + 13)
-    cases = [gen_case(rng) for _ in range(n)]
+    if cases is None:
+        cases = [gen_case(rng) for _ in range(n)]
+        if flags == "none":
+            for c in cases:
+                c["F"] = []
     results = []
     for out in pool.parallel_map(_worker, [(c, chk.seed) for c in pool.chunks(cases, 25)]):
         results += out
@@ -123,26 +131,30 @@ def validate(chk, n, props_map=None):
             raise MachineryError("trace generation crashed: " + r["error"])
         if r["problem"]:
             cl, det = r["problem"]
-            chk.mismatch(cl, {"clause": cl, "source": "trace"}, {"kind": "trace-case", "case": r["case"], "module": r["text"], "problem": det},
+            chk.mismatch(cl, {"clause": cl, "source": "trace"}, {"kind": "trace-case", "case": r["case"], "seed": chk.seed, "module": r["text"], "problem": det},
                          props=["C18"] if cl == "finish" else ["C03"])
     batch = {"traces": [r["trace"] for r in good]}
-    res = tlc.run_tlc("TraceCore", "TraceCore.cfg", workers=8, timeout=1200,
+    res = tlc.run_tlc("TraceCore", "TraceCore.cfg", workers=1, timeout=1200,
                       extra_files={"traces.json": json.dumps(batch)}, env={"TRACE_FILE": "traces.json"})
     chk.add_tlc(res, "trace validation TraceCore (%d recorded executions beyond the bounds)" % len(good))
     verdicts = {}
-    for line in " ".join(res.printed).replace("\n", " ").split('<<"VERDICT", ')[1:]:
+    # (TLC wraps long values over several lines and then writes `<< "VERDICT",`)
+    flat = re.sub(r"\s+", " ", res.stdout).replace("<< ", "<<").replace(" >>", ">>")
+    for line in flat.split('<<"VERDICT", ')[1:]:
         m = re.match(r"(\d+), (TRUE|FALSE), (TRUE|FALSE), (TRUE|FALSE), (TRUE|FALSE), (.*)", line)
         if m:
-            verdicts[int(m.group(1))] = ([x == "TRUE" for x in m.groups()[1:5]], m.group(6)[:300])
+            verdicts[int(m.group(1))] = ([x == "TRUE" for x in m.groups()[1:5]], re.split(r" (Model checking|Progress\(|Checkpointing|Finished)", m.group(6))[0][:300])
     tlc.cleanup(res)
     if len(verdicts) != len(good):
         raise MachineryError("TraceCore gave %d verdicts for %d traces:\n%s" % (len(verdicts), len(good), res.raw_tail[-1500:]))
     for tid, r in enumerate(good, 1):
         (res_ok, failed_ok, pend_ok, src_ok), detail = verdicts[tid]
         F = r["case"]["F"]
-        chk.count(1, "trace|%d" % tid)
+        tr = r["trace"]
+        nontrivial = any(tr["failed"]) or any(tr["pending"]) or any(e["res"] in ("TE", "UE") for e in tr["events"])
+        chk.count(1, "trace|%d" % tid if nontrivial else None)
         chk.validated(1)
-        rp = {"kind": "trace-case", "case": r["case"], "module": r["text"], "module_after": r["new"], "trace": r["trace"], "tlc": detail}
+        rp = {"kind": "trace-case", "case": r["case"], "seed": chk.seed, "module": r["text"], "module_after": r["new"], "trace": r["trace"], "tlc": detail}
         if not res_ok:
             chk.mismatch("trace-result", {"clause": "trace-result", "F": F}, rp, props=(["C06"] if not F else ["C07", "C02"]) + ["C14", "C17", "C18"])
         if not failed_ok:
